@@ -201,6 +201,29 @@ def Signer.Consistent {C : Crypto} (s : Signer C) : Prop := ∀ m, C.verify s.pk
 /-- executable probe of the same (what the monitor does on the real signer) -/
 def Signer.probe {C : Crypto} (s : Signer C) (m : Bytes) : Bool := C.verify s.pk m (C.sign s.sk m)
 
+/-! ## The proposed repair (notes/C19.md) — *not* what the code does, not run by the driver
+
+`loadFixed` = `load` with the three checks of the proposed patch: reject the empty passphrase on the
+legacy path, reject a nonce of the wrong length, reject a stored public key that is not the private
+key's.  `Spec.C19.fixed_*` prove that these three checks are sufficient for the full statement. -/
+
+def decryptFixed (C : Crypto) (pass : Bytes) (f : File C) : Res Bytes :=
+  if (fld f.salt).length = 0 ∧ pass.length = 0 then .err .auth
+  else if (fld f.nonce).length ≠ nonceSize then .err .json
+  else decrypt C pass f
+
+def loadFixed (C : Crypto) (pass : Bytes) (f : File C) : Res (Signer C) :=
+  match decryptFixed C pass f with
+  | .panic p => .panic p
+  | .err e => .err e
+  | .ok m =>
+    match C.parsePriv m with
+    | none => .err .privkey
+    | some sk =>
+      match C.parsePub (fld f.pub) with
+      | none => .err .pubkey
+      | some pk => if C.pubBytes (C.pubOf sk) = C.pubBytes pk then .ok { sk := sk, pk := pk } else .err .pubkey
+
 /-! ## A concrete symbolic instance (for the driver and for the witnesses) -/
 
 inductive SymKey where
